@@ -1,4 +1,5 @@
 """C07 - pattern lists, exclusions, SPLIT and BRACE decompose into single-pattern matches (metamorphic on wcmatch)."""
+import os
 import itertools
 
 from ..runner import Outcome, HarnessError
@@ -58,6 +59,7 @@ def shards(tier, seed, scale=1.0):
         out.append({'name': 'split-%d' % s, 'kind': 'split', 'seed': seed * 1000 + 100 + s, 'n': n})
         out.append({'name': 'brace-%d' % s, 'kind': 'brace', 'seed': seed * 1000 + 200 + s, 'n': n})
     out.append({'name': 'fixed', 'kind': 'fixed'})
+    out.append({'name': 'real', 'kind': 'real'})
     return out
 
 
@@ -71,7 +73,68 @@ def run_shard(desc):
         return run_brace(desc)
     if k == 'fixed':
         return run_fixed(desc)
+    if k == 'real':
+        return run_real(desc)
     raise HarnessError(k)
+
+
+REAL_TREE = [('d', 'docs'), ('d', 'docs/api'), ('f', 'docs/x.md'), ('f', 'docs/api/y.md'), ('d', 'src'), ('f', 'src/m.py'), ('f', 'a.txt'), ('f', 'b.md'),
+             ('d', '.hd'), ('f', '.hd/z.md'), ('f', '.h'), ('d', 'empty'), ('l', 'ldocs', 'docs'), ('l', 'lf', 'a.txt')]
+REAL_INC = ['*', '**', 'docs', 'd*', '*/*', '**/*.md', '*/', '**/', '.*', 'docs/**']
+REAL_EXC = ['*/', 'docs/', '**/', '.*/', 'd*/', '*/*/', '*.txt', '**/*.md', 'docs', 'docs/*/', 'l*', '.*', 'empty/']
+
+
+def run_real(desc):
+    """The same decomposition with REALPATH on a real tree: a list (inclusions, exclusions inline or through exclude=) accepts a
+    path exactly when some inclusion accepts it and no exclusion does - each judged alone, with REALPATH, on the same spelling of
+    the path (directories are named with and without their trailing separator)."""
+    from .. import fscommon as FC
+    import itertools
+    out = Outcome()
+    out.exhaustive = True
+    with FC.built_tree(REAL_TREE) as (root, _r):
+        names = []
+        for e in REAL_TREE:
+            names.append(e[1])
+            if e[0] == 'd' or (e[0] == 'l' and e[2] == 'docs'):
+                names.append(e[1] + '/')
+        names += ['zz', 'docs/zz', 'ldocs/x.md', 'ldocs/api/']
+        for base in (G.REALPATH, G.REALPATH | G.GLOBSTAR, G.REALPATH | G.GLOBSTAR | G.DOTGLOB, G.REALPATH | G.GLOBSTAR | G.FOLLOW,
+                     G.REALPATH | G.GLOBSTAR | G.NODIR, G.REALPATH | G.MATCHBASE):
+            one = {}
+            for p_ in set(REAL_INC) | set(REAL_EXC):
+                one[(p_, False)] = set(G.globfilter(names, p_, flags=base & ~G.NODIR, root_dir=root))
+                # an exclusion is a pure text match (no symlink rule, DOTGLOB forced) on the path as REALPATH normalises it: a
+                # directory carries its trailing separator
+                pure = (base & ~(G.NODIR | G.REALPATH | G.FOLLOW)) | G.DOTGLOB
+                one[(p_, True)] = {n_ for n_ in names if os.path.lexists(os.path.join(root, n_)) and G.globmatch(
+                    n_ + ('/' if os.path.isdir(os.path.join(root, n_)) and not n_.endswith('/') else ''), p_, flags=pure)}
+            for inc in itertools.chain(([i_] for i_ in REAL_INC), (list(c_) for c_ in itertools.combinations(REAL_INC[:6], 2))):
+                for exc in itertools.chain(([e_] for e_ in REAL_EXC), (list(c_) for c_ in itertools.combinations(REAL_EXC[:7], 2))):
+                    want = set()
+                    for n_ in names:
+                        ok = any(n_ in one[(i_, False)] for i_ in inc) and not any(n_ in one[(e_, True)] for e_ in exc)
+                        if ok and (base & G.NODIR) and (n_.endswith('/') or os.path.isdir(os.path.join(root, n_))):
+                            ok = False
+                        if ok:
+                            want.add(n_)
+                    forms = {'exclude=': lambda: G.globfilter(names, inc, flags=base, exclude=exc, root_dir=root),
+                             'inline': lambda: G.globfilter(names, inc + ['!' + e_ for e_ in exc], flags=base | G.NEGATE, root_dir=root),
+                             'inline-first': lambda: G.globfilter(names, ['!' + e_ for e_ in exc] + inc, flags=base | G.NEGATE, root_dir=root),
+                             'compile': lambda: G.compile(inc, flags=base, exclude=exc).filter(names, root_dir=root)}
+                    for form, fn in forms.items():
+                        got = set(fn())
+                        out.evaluations += len(names)
+                        if got != want:
+                            d = sorted(got ^ want)[0]
+                            out.violation({'kind': 'real', 'mode': 'gl', 'include': inc, 'exclude': exc, 'flags': base, 'form': form, 'name': d,
+                                           'impl': d in got, 'want': d in want,
+                                           'problem': 'with REALPATH the list does not decompose into single-pattern matches'},
+                                          size=len(str(inc)) + len(str(exc)), bucket=('real', form, d in got))
+                            break
+                    out.nontrivial(('real', tuple(inc), tuple(exc), base))
+    out.sample({'stream': 'real', 'inclusions': REAL_INC, 'exclusions': REAL_EXC, 'names': len(names)})
+    return out
 
 
 RAW_TEXTS = ['!keep', '-keep', '!a', '-a', '!.a', '!*', '(a)', '(a', '(', 'a)', ')', '(a|b)', '+a', '@a', '~a', '{a', 'a-b', 'a!b', '[a', 'a]', '()', '(!a)', '(-a)', 'x(a)', '\\(a\\)', '(.a)', '(a)*',
@@ -466,6 +529,10 @@ def replay(case):
     mode = case['mode']
     mod = F if mode == 'fn' else G
     match, _ = match_fn(mode)
+    if kind == 'real':
+        r = run_real({})
+        mine = [v[2] for v in r.violations if v[2].get('include') == case['include'] and v[2].get('exclude') == case['exclude']]
+        return (not mine), [dict(name=v_['name'], form=v_['form']) for v_ in mine][:3]
     if kind == 'fixed':
         table = util.FN_FLAGS if mode == 'fn' else util.GL_FLAGS
         got = case['name'] in call_entry(mode, case.get('entry', 0), [case['name']], case['patterns'], util.flags_of(case['flags'], table))
